@@ -78,7 +78,7 @@ Definition c_sam_write (v : val) : val :=
   | VL [rv; ov] =>
     match as_sam rv, as_foracle ov with
     | Some r, Some o =>
-      VL [VL (map VB (write_calls o r)); v_outcome VB (marshal_text o r)]
+      VL [VB (write o r); v_outcome VB (marshal_text o r)]
     | _, _ => v_bad
     end
   | _ => v_bad
